@@ -14,6 +14,7 @@ TRUSTED_BASE = [
     "Coq 8.16.1 kernel (coqc, full .vo build); no native_compute",
     "extraction: Require Extraction + ExtrOcamlBasic only; N, positive, nat stay inductive; no Extract Constant of our own; OCaml 4.13.1",
     "hand-written glue: harness/ml/common.ml.in, ta_io.ml.in, c08_main.ml (steps the extracted pool model, re-bases it on verified observations), harness/drv/c08.cc + bdd_common.hh + common.hh, harness/gen.py, harness/core.py",
+    "translator: harness/scrape_dispatch.py regenerates coq/DispatchTable.v from /repo on every run (here: SYMBOL_SIZE, SYMBOL_ARITY_LENGTH and the formula of MAX_SYMBOL_ARITY, tied to the arity-prefix model by C08_arity_constants_from_source)",
     "modelled, not verified: MTBDD apply functors, transition-table sharing, AND/OR-graph usefulness analysis, arity prefixes; a handle is modelled by the rule set it denotes; tied by language equivalence (verified decider) of every live handle after every step",
 ]
 ASSUMPTIONS = ["dumps are read back through libvata's own Timbuk serializer/parser (C13 checks those)", "UnionDisjointStates is only applied to operands with disjoint state numbers or to table-sharing copies",
